@@ -24,6 +24,7 @@ import (
 	segment "github.com/blevesearch/scorch_segment_api/v2"
 
 	"verif/bx"
+	"verif/lww"
 	"verif/mc"
 	"verif/sched/drv"
 	"verif/sched/vrt"
@@ -37,6 +38,8 @@ type cfg struct {
 	unsafe  bool // unsafe_batch: batches return before they are persisted, so readers and copies are taken on roots that are never persisted under their own epoch
 	allStep bool
 	batches int
+	family  []string               // workload family (lww.BuildWord): the explorer chooses the word (vrt.Choose)
+	plan    map[string]interface{} // merge plan (default: aggressive)
 }
 
 func zapFiles(store string) map[string]bool {
@@ -66,14 +69,29 @@ func readerFiles(r index.IndexReader) []string {
 
 func body(k cfg) func(c *drv.Ctx) {
 	return func(c *drv.Ctx) {
+		k := k
+		var wl []lww.Batch
+		keeper := "a" // a document the workload never deletes (the held reader re-reads it)
+		if k.family != nil {
+			word := k.family[vrt.Choose(len(k.family), "workload")]
+			wl = lww.BuildWord(word)
+			k.batches = len(wl)
+			keeper = "k0"
+			c.Observe("wl=" + word)
+			c.Count("family_words_run", 1)
+		}
 		base := c.Dir + "/idx"
 		store := filepath.Join(base, "store")
 		var idx bleve.Index
 		vrt.Free(func() {
 			var err error
+			plan := k.plan
+			if plan == nil {
+				plan = bx.AggressiveMergePlan
+			}
 			conf := map[string]interface{}{
 				"numSnapshotsToKeep":     k.keep,
-				"scorchMergePlanOptions": bx.CopyConfig(bx.AggressiveMergePlan),
+				"scorchMergePlanOptions": bx.CopyConfig(plan),
 			}
 			if k.unsafe {
 				conf["unsafe_batch"] = true
@@ -145,13 +163,19 @@ func body(k cfg) func(c *drv.Ctx) {
 			defer wg.Done()
 			for j := 1; j <= k.batches; j++ {
 				b := idx.NewBatch()
-				b.Index("a", map[string]interface{}{"seq": strconv.Itoa(j)})
-				if j%2 == 0 {
-					b.Delete("b")
+				if wl != nil {
+					if err := lww.Fill(b, wl[j-1]); err != nil {
+						panic(err)
+					}
 				} else {
-					b.Index("b", map[string]interface{}{"seq": strconv.Itoa(j)})
+					b.Index("a", map[string]interface{}{"seq": strconv.Itoa(j)})
+					if j%2 == 0 {
+						b.Delete("b")
+					} else {
+						b.Index("b", map[string]interface{}{"seq": strconv.Itoa(j)})
+					}
+					b.Index(fmt.Sprintf("d%d", j), map[string]interface{}{"seq": strconv.Itoa(j)})
 				}
-				b.Index(fmt.Sprintf("d%d", j), map[string]interface{}{"seq": strconv.Itoa(j)})
 				if err := idx.Batch(b); err != nil {
 					c.Fail("error:batch", "Batch: %v", err)
 					return
@@ -181,9 +205,9 @@ func body(k cfg) func(c *drv.Ctx) {
 				if err != nil || got != want {
 					c.Fail("reader-changed", "held reader DocCount %d -> %d (%v)", want, got, err)
 				}
-				d, err := r.Document("a")
+				d, err := r.Document(keeper)
 				if err != nil || d == nil {
-					c.Fail("reader-lost-document", "held reader lost document a: %v", err)
+					c.Fail("reader-lost-document", "held reader lost document %s: %v", keeper, err)
 				} else {
 					d.VisitFields(func(f index.Field) {})
 				}
@@ -686,7 +710,19 @@ func Scenarios() []drv.Scenario {
 	d1r := []drv.Phase{{Bound: 1, Filter: "restricted"}}
 	d1 := []drv.Phase{{Bound: 1}}
 	d2 := []drv.Phase{{Bound: 1}, {Bound: 2, Filter: "restricted"}}
+	d0 := []drv.Phase{{Bound: 0}}
+	words := lww.PlainWords(mc.Tier())
+	fam := func(name string, k cfg) drv.Scenario {
+		k.name, k.family = name, words
+		sc := mk(k, d0, d0)
+		sc.Doc = "workload family: every word over the batch-shape alphabet {n u b d w x m} after a setup batch is the writer's workload (environment choice: all words); reader held from batch 1 to the end, a backup started after batch 2; file monitor at every effect boundary, quiescence and descriptor checks"
+		return sc
+	}
 	return []drv.Scenario{
+		fam("family-writer+reader+copy-aggressive-merges-keep1", cfg{keep: 1, copy: true}),
+		fam("family-writer+reader+copy-partial-merges-keep1", cfg{keep: 1, copy: true, plan: bx.PartialMergePlan}),
+		fam("family-writer+reader+copy-default-plan-keep2", cfg{keep: 2, copy: true, plan: map[string]interface{}{}}),
+		fam("family-unsafe-writer+reader+copy-aggressive-merges-keep1", cfg{keep: 1, copy: true, unsafe: true}),
 		mk(cfg{name: "writer+reader-keep1", keep: 1, batches: 4}, d1r, d2),
 		mk(cfg{name: "writer+reader+copy-keep1", keep: 1, batches: 4, copy: true}, d1r, d2),
 		mk(cfg{name: "writer+reader+two-overlapping-copies-keep1", keep: 1, batches: 4, copy: true, copies: 2}, nil, d2),
